@@ -632,6 +632,25 @@ long verif_enumerate(int shard, int nshards, int tier, verif::EnumReport &r) {
             }
         }
     }
+    // ---- patterns whose LENGTH does not fit 16 bits (65535, 65536, 65537, 131072, 196609 bytes of pseudo-random letters, so that partial
+    // matches stay short): present twice, present once after a near miss (last byte changed) and a letter-case twin, and absent
+    {
+        static const size_t PL[] = {65535, 65536, 65537, 131072, 196609};
+        int idx = 0;
+        for (size_t L : PL) for (int v = 0; v < 3; v++) {
+            if (idx++ % nshards != shard) continue;
+            if (!tier && L > 131072 && v != 1) continue;
+            std::string pat(L, '\0'); uint64_t x = 0x9E3779B97F4A7C15ull ^ L;
+            for (size_t i = 0; i < L; i++) { x = x * 6364136223846793005ull + 1442695040888963407ull; pat[i] = (char)("abcdefghijklmnopqrstuvwxyzABCDEFGHIJKLMNOPQRSTUVWXYZ0123456789-_"[(x >> 33) & 63]); }
+            std::string miss = pat; miss[L - 1] = (char)(miss[L - 1] == '#' ? '%' : '#');
+            std::string twin = pat; for (char &ch : twin) if (ch >= 'a' && ch <= 'z') ch = (char)(ch - 32);
+            const std::string A = "The quick brown fox #", B = "% jumps over the lazy dog; ", C = " and runs away.\n";
+            TextCase k; k.pat = pat; k.delims_default = false; k.delims = "#% ";
+            k.s = v == 0 ? A + pat + B + pat + C : v == 1 ? A + miss + B + twin + C + pat + A : A + miss + B + miss.substr(1) + C;
+            k.to = v == 0 ? "" : v == 1 ? "<replaced>" : "x"; if (v == 1) { k.max = 1; k.max_default = false; }
+            if (!run(k)) return r.evaluations;
+        }
+    }
     // ---- more occurrences than 16 bits can count: 70000 one-byte / two-byte separators, every argument defaulted
     for (int v = 0; v < 4; v++) {
         if (v % nshards != shard) continue;
@@ -678,6 +697,7 @@ long verif_enumerate(int shard, int nshards, int tier, verif::EnumReport &r) {
     }
     if (shard == 0) {
         r.exhausted.push_back("patterns (a ruler of dashes, a run of distinct punctuation) of every length 1..300 in ordinary text: twice inside, as prefix and exact suffix, one byte short, one byte long, after an all-bytes-XOR-0x20 look-alike, equal to the subject, three in a row; replacements empty / one byte / same length / longer; every overload, both case modes");
+        r.exhausted.push_back("patterns of 65535, 65536, 65537, 131072 and 196609 pseudo-random letters: present twice; once after a near miss and a letter-case twin; absent (near misses only)");
         r.exhausted.push_back("70000 separators (one-byte and two-byte) in one text: split with every argument defaulted and with max_splits=65536, replace, tokenize");
         r.exhausted.push_back("tokenize with delimiter sets of every size 0..40 (two orderings, bytes >= 0x80 at positions 0, 15, 16, 17, 39) over a text containing every byte value");
         r.exhausted.push_back("a 49157-byte text whose first / last (or only) occurrence of a 2, 3, 8, 17-byte pattern starts at every offset B*m-|pat|-1 .. B*m+1 from the START / B*m-1 .. B*m+|pat|+1 from the END, B in {16, 64, 256, 4096, 16384, 16386}, m in {1, 2}");
